@@ -1,6 +1,7 @@
 import Operon.Lemmas.C15
 import Operon.Lemmas.C15Dfs
 import Operon.Lemmas.C15Life
+import Operon.Gen.CoordAdvanceProbe
 /-!
 # C15 — deadlock detection agrees with the real wait-for relation
 
@@ -295,6 +296,23 @@ theorem c15_phantom_deadlock_witness :
 of its phase passes; the flags the default checkpoints read (`resources_acquired`, `execution_complete`,
 `validation_passed`) and the watchdog exemption are public attributes of the context.  `lstep` (Model/CoordLife.lean)
 is what the protocol driver runs for `advance o` / `flag o f b` / `exempt o b` / `adv d`. -/
+
+/-- **The model's `advance` is the code's, on its complete domain (table regenerated from the source on every run).**
+    `Gen.advanceProbe` (harness/vf/extract/coord_probe.py) is the real `CellCycleController.advance` EVALUATED with the
+    default checkpoints on every (phase, resources_acquired, execution_complete, validation_passed) — 40 rows, all of
+    the domain (`advanceDomain`), each on a context whose every other attribute holds a sentinel.  On every row the
+    model's `advance` (`baseCond`, `Phase.next`) gives the same verdict and the same next phase, writes the phase time
+    exactly when the code does, changes nothing else — and neither does the code: the column "every other attribute
+    of the context or part of the controller that differs afterwards" is empty on every row (in particular `advance`
+    does not touch the priority, the creation time or the flags, also when the phase wraps M → G0).  A proof by
+    `decide` over the complete finite table; custom checkpoint conditions are environment (`CpOut.no / .raise`). -/
+theorem c15_advance_table_agrees_with_source :
+    Gen.advanceProbeOk = true ∧
+    Gen.advanceProbe.map (fun r => (r.1, r.2.1, r.2.2.1, r.2.2.2.1)) = advanceDomain ∧
+    ∀ r ∈ Gen.advanceProbe,
+      advanceRow r.1 r.2.1 r.2.2.1 r.2.2.2.1 = (r.2.2.2.2.1, r.2.2.2.2.2.1, r.2.2.2.2.2.2.1, false) ∧
+      r.2.2.2.2.2.2.2 = [] := by
+  decide
 
 /-- **Phase cycling changes nothing the detector or the victim rule reads.**  After any sequence of `advance`
     calls (whatever the checkpoints answer, also round the cycle M → G0, any number of times), flag / exemption
